@@ -11,6 +11,11 @@ PROGS = {
     "regex-literal": ('let v = W { s: "abc".to_string() };', 'v, W { s: =~ "a.c" }', True, False),
     "string-like-impl": ('let v = W { s: "abc".to_string() }; let pat = "a.c".to_string();', 'v, W { s: =~ pat }', True, False),
     "no-regex-at-all": ('let v = W { s: "abc".to_string() };', 'v, W { s: "abc" }', True, True),
+    # a regex literal stays a regex literal: without the feature it is rejected even where a user impl could give it another meaning
+    "regex-literal-user-like-str": ('#[derive(Debug)] struct Tag(String); impl assert_struct::Like<&str> for Tag { fn like(&self, p: &&str) -> bool { self.0.starts_with(*p) } } let v = Tag("abc".to_string());',
+                                    'v, =~ "a.c"', None, False),
+    "regex-literal-user-like-str-field": ('#[derive(Debug)] struct Tag(String); #[derive(Debug)] struct U { tag: Tag } impl assert_struct::Like<&str> for Tag { fn like(&self, p: &&str) -> bool { self.0.starts_with(*p) } } let v = U { tag: Tag("abc".to_string()) };',
+                                          'v, U { tag: =~ "a.c" }', None, False),
 }
 
 
@@ -76,7 +81,7 @@ def run(ck):
                 ok = res[name.replace("-", "_")]["ok"]
                 want = acc_default if d else acc_nodefault
                 adist["%s default=%s accepted=%s" % (name, d, ok)] = 1
-                if ok != want:
+                if want is not None and ok != want:
                     diags = res[name.replace("-", "_")]["diags"]
                     ck.report("like-acceptance:%s:default=%s" % (name, d),
                               ("rejected although it must be accepted" if want else "accepted although it must be rejected") + " with default features %s: %s" % ("on" if d else "off", name),
@@ -84,6 +89,6 @@ def run(ck):
         finally:
             proj.cleanup()
     ck.corr_record("T3 Like forms per configuration (user Like impl, regex literal, String pattern through the built-in impls, plain string) accepted / rejected by rustc",
-                   2 * len(PROGS), 2 * len(PROGS), 0, adist, samples=[dict(program=PROGS["regex-literal"][1])], exhaustive=True, rule="5 programs x 2 configurations")
+                   2 * len(PROGS), 2 * len(PROGS), 0, adist, samples=[dict(program=PROGS["regex-literal"][1])], exhaustive=True, rule="%d programs x 2 configurations" % len(PROGS))
     ck.assumptions += ["cargo's additive feature unification is modelled by `resolve` for this two-crate graph and compared with `cargo tree -e features` on every run"]
     ck.trusted.append("the manifest translator tools/gen_wiring.py (its output is compared with cargo's own resolution on every run)")
